@@ -203,8 +203,11 @@ fn input(i: &InputObjectType<'_, String>, kinds: &BTreeMap<String, &'static str>
 /// `query_text` is the document the client sent: it decides which optional members are present.
 pub fn convert(sdl: &str, query_text: &str) -> Result<Converted, String> {
     let doc: Document<'_, String> = graphql_parser::parse_schema(sdl).map_err(|e| e.to_string())?;
-    let selects = |field: &str| query_text.lines().any(|l| l.trim() == field);
-    let flags = Flags { one_of: selects("isOneOf"), specified_by: selects("specifiedByURL") };
+    // With a query text, the complete result is built and then projected onto what the query
+    // selects (see `project`); without one (schema files for the C08 tree) the classic shape is
+    // produced directly.
+    let full = !query_text.trim().is_empty();
+    let flags = Flags { one_of: full, specified_by: full };
     let kinds = kinds(&doc);
     let mut arguable = vec![];
     let mut has_one_of = false;
@@ -275,5 +278,85 @@ pub fn convert(sdl: &str, query_text: &str) -> Result<Converted, String> {
         "types": types,
         "directives": [],
     });
+    let schema = if full {
+        let data = project_query(&json!({"__schema": schema}), query_text)?;
+        data["__schema"].clone()
+    } else {
+        schema
+    };
     Ok(Converted { schema, arguable, has_one_of })
+}
+
+use graphql_parser::query as q;
+
+fn arg_true(f: &q::Field<'_, String>, name: &str) -> bool {
+    f.arguments.iter().any(|(n, v)| n == name && matches!(v, q::Value::Boolean(true)))
+}
+
+fn apply(o: &serde_json::Map<String, Value>, sel: &q::SelectionSet<'_, String>, frags: &BTreeMap<String, &q::FragmentDefinition<'_, String>>, out: &mut serde_json::Map<String, Value>, depth: usize) {
+    if depth > 64 {
+        return;
+    }
+    for item in &sel.items {
+        match item {
+            q::Selection::Field(f) => {
+                let key = f.alias.clone().unwrap_or_else(|| f.name.clone());
+                let mut v = o.get(&f.name).cloned().unwrap_or(Value::Null);
+                // a server leaves deprecated members out unless asked for them
+                if (f.name == "fields" || f.name == "enumValues") && !arg_true(f, "includeDeprecated") {
+                    if let Value::Array(a) = &mut v {
+                        a.retain(|e| e["isDeprecated"] != json!(true));
+                    }
+                }
+                let pv = if f.selection_set.items.is_empty() { v } else { project(&v, &f.selection_set, frags, depth + 1) };
+                out.insert(key, pv);
+            }
+            q::Selection::FragmentSpread(sp) => {
+                if let Some(fr) = frags.get(&sp.fragment_name) {
+                    apply(o, &fr.selection_set, frags, out, depth + 1);
+                }
+            }
+            q::Selection::InlineFragment(i) => apply(o, &i.selection_set, frags, out, depth + 1),
+        }
+    }
+}
+
+fn project(v: &Value, sel: &q::SelectionSet<'_, String>, frags: &BTreeMap<String, &q::FragmentDefinition<'_, String>>, depth: usize) -> Value {
+    match v {
+        Value::Array(a) => Value::Array(a.iter().map(|x| project(x, sel, frags, depth)).collect()),
+        Value::Object(o) => {
+            let mut out = serde_json::Map::new();
+            apply(o, sel, frags, &mut out, depth);
+            Value::Object(out)
+        }
+        other => other.clone(),
+    }
+}
+
+/// The stub endpoint's executor proper: evaluates the (introspection) query document against the
+/// complete introspection data: only what the document selects is returned, `includeDeprecated`
+/// is honoured, fragments are expanded. Unknown fields evaluate to null.
+pub fn project_query(data: &Value, query_text: &str) -> Result<Value, String> {
+    let doc: q::Document<'_, String> = graphql_parser::parse_query(query_text).map_err(|e| format!("query does not parse: {}", e))?;
+    let mut frags = BTreeMap::new();
+    let mut op: Option<&q::SelectionSet<'_, String>> = None;
+    for d in &doc.definitions {
+        match d {
+            q::Definition::Fragment(f) => {
+                frags.insert(f.name.clone(), f);
+            }
+            q::Definition::Operation(o) => {
+                if op.is_none() {
+                    op = Some(match o {
+                        q::OperationDefinition::Query(x) => &x.selection_set,
+                        q::OperationDefinition::SelectionSet(x) => x,
+                        q::OperationDefinition::Mutation(x) => &x.selection_set,
+                        q::OperationDefinition::Subscription(x) => &x.selection_set,
+                    });
+                }
+            }
+        }
+    }
+    let sel = op.ok_or_else(|| "no operation in the query document".to_string())?;
+    Ok(project(data, sel, &frags, 0))
 }
